@@ -1,4 +1,5 @@
 import PtVerif.Proofs.GrammarPrint
+import PtVerif.Proofs.PrintReal
 import PtVerif.Model.GrammarTable
 /-!
 # C13 — printing a formula and parsing it back gives the same formula
@@ -61,6 +62,20 @@ theorem printed_count_positive (q : Q) (hn : 0 < q.num) (hd : 0 < q.den) : 0 < (
 /-- six significant digits: the mantissa of the printed count has exactly six digits -/
 theorem six_digits (n d : Nat) (hn : 0 < n) (hd : 0 < d) :
     10 ^ 5 ≤ (sig6 n d).1 ∧ (sig6 n d).1 < 10 ^ 6 := sig6_range n d hn hd
+
+/-- **every count equal to the printed precision**: for a positive count `q` with
+    `10^e ≤ q < 10^(e+1)` the printed count is `m · 10^(e-5)` for an integer `10^5 ≤ m ≤ 10^6`
+    (six significant digits) and lies within half a unit of the sixth digit of `q` -/
+theorem printed_count_is_six_digit_rounding (q : Q) (hn : 0 < q.num) (hd : 0 < q.den) :
+    ∃ (m : ℕ) (e : ℤ), (10 : ℚ) ^ e ≤ q.val ∧ q.val < (10 : ℚ) ^ (e + 1) ∧
+      10 ^ 5 ≤ m ∧ m ≤ 10 ^ 6 ∧ (round6 q).toRat = (m : ℚ) * (10 : ℚ) ^ (e - 5) ∧
+      |(round6 q).toRat - q.val| ≤ (10 : ℚ) ^ (e - 5) / 2 := round6_spec q hn hd
+
+/-- **exactly for counts that need no more**: a count `k · 10^p` with at most six significant
+    digits (`0 < k < 10^6`, any magnitude `p`) is printed – and parsed back – exactly -/
+theorem printed_count_exact (q : Q) (hd : 0 < q.den) (k : ℕ) (p : ℤ) (hk : 0 < k) (hk6 : k < 10 ^ 6)
+    (hq : q.val = (k : ℚ) * (10 : ℚ) ^ p) : (round6 q).toRat = q.val :=
+  round6_exact q hd k p hk hk6 hq
 
 /-- the count 1, in any representation, is the printed count 1 (and is not written) -/
 theorem round6_unit (n : Nat) (hn : 0 < n) : round6 ⟨n, n⟩ = Cnt.one := round6_one n hn
